@@ -660,6 +660,19 @@ pub fn gen_intent(rng: &mut Rng, c: &CmdSpec, io: &IntentOpts) -> LevelIntent {
                     // the first value is a plain word; after it anything is a value: known flags and
                     // options of this level, help/version requests, unknown dash words
                     toks[0] = format!("{}o{}v0", a.id, occ);
+                    // ... or a short-looking token with at least one character that is no declared
+                    // short (`-v#`, `-#v`, `-h#`): not a cluster of flags, hence a value
+                    if rng.chance(1, 4) {
+                        let mut known: Vec<char> = c.args.iter().filter(|x| !x.is_positional()).filter_map(|x| x.short).collect();
+                        if !c.has(Setting::DisableHelpFlag) {
+                            known.push('h');
+                        }
+                        toks[0] = match (known.is_empty(), rng.below(3)) {
+                            (false, 0) => format!("-{}#", rng.pick(&known)),
+                            (false, 1) => format!("-#{}", rng.pick(&known)),
+                            _ => "-#".to_string(),
+                        };
+                    }
                     for j in 1..toks.len() {
                         if rng.coin() {
                             let known: Vec<&ArgSpec> = c.args.iter().filter(|x| !x.is_positional()).collect();
@@ -1082,6 +1095,13 @@ fn render_level<'a>(rng: &mut Rng, c: &'a CmdSpec, li: &LevelIntent, st: &Style,
             let names = sub_names(c);
             if let Some(p) = unique_prefix(rng, &s.name, &names) {
                 choices.push((p, "sub.prefix"));
+            }
+            // a prefix that only an alias (visible or hidden) has
+            for (a, _) in &s.aliases {
+                if let Some(p) = unique_prefix(rng, a, &names) {
+                    choices.push((p, "sub.prefix"));
+                    break;
+                }
             }
         }
         let pick = if rng.below(100) < st.alias.max(st.prefix) { rng.below(choices.len()) } else { 0 };
